@@ -95,8 +95,9 @@ def run(ctx):
                 k = (np.asarray(nsutil.to_list(xin), float).reshape(n, d) - yv) / (up - lo)
                 if not np.all(np.abs(k - np.round(k)) <= 1e-3 if width == "float32" else np.abs(k - np.round(k)) <= 1e-6 * (1 + np.abs(k)) + 64 * eps_m * (abs(off) + np.abs(xx).max()) / wscale):
                     ctx.violation("periodic-not-modulo", "wrapped value differs from x by a non-integer number of periods", dict(case, x=xx.tolist()))
-                if np.any(np.asarray(nsutil.to_list(lj), float) != 0):
-                    ctx.violation("periodic-logj", "periodic log-Jacobian is not zero", case)
+                ljp = np.asarray(nsutil.to_list(lj), float).reshape(-1)
+                if np.any(ljp != 0) or len(ljp) != n:
+                    ctx.violation("periodic-logj", f"periodic log-Jacobian is not a vector of {n} zeros (one per row): {ljp[:5]} (length {len(ljp)})", case)
                 y2, _ = T.inverse(y)
                 if not np.array_equal(np.asarray(nsutil.to_list(y2), float).reshape(n, d), yv):
                     ctx.violation("periodic-inverse", "inverse(forward(x)) != forward(x)", case)
